@@ -8,6 +8,7 @@ import (
 	"io"
 	"math/rand"
 	"net"
+	"os"
 	"path/filepath"
 	"strings"
 	"time"
@@ -277,6 +278,7 @@ func decode(enc string, data []byte) ([]byte, error) {
 
 func compressRun() {
 	e := &compressEnv{dir: tempDir("verif-compress-"), mods: map[string]*bfe_module.HandlerList{}}
+	defer os.RemoveAll(e.dir)
 	rnd := vh.Rand(54)
 	vh.EachCase(func(line []byte) {
 		var c compressCase
